@@ -247,7 +247,7 @@ func Reference(site Site, s Settings, sp SeedPlan, seen SeenStore) Expect {
 				}
 				if r.Kind == "html" {
 					e.Pages[n.url] = n.hops
-					for _, l := range r.Links {
+					for _, l := range append(append([]string{}, r.Links...), r.HdrLinks...) {
 						switch {
 						case dc && MatchesDomainsCrawl(l, s):
 							e.Outlinks = append(e.Outlinks, ExpOutlink{URL: l, Via: n.url, Hops: 0})
